@@ -10,16 +10,17 @@ use arimaa_engine_step::Action;
 
 /// Queries on an arbitrary invariant-satisfying play state. PART 0: the two action lists;
 /// 1: result, move/pass availability, hash, earlier boards, accessors; 2: capture preview and
-/// application of an arbitrary legal step (offered = legal: C01); 3: pass.
+/// application of an arbitrary OFFERED action (entry k of the engine's own list); 3: pass.
 pub fn c19_play<const STEP: usize, const KIND: u8, const PART: u8>(inp: &Inp) -> Verdict {
     let s = decode(inp, STEP, KIND, HIST_MAX);
     vassume!(inv_rules(&s));
     set_focus!(s.a_sq);
     let gs = build_state(&s);
+    let mut wit = false;
     if PART == 0 {
         let l1 = gs.valid_actions();
         let l2 = gs.valid_actions_no_rep();
-        vcover_if!(PART == 0, !l1.is_empty(), "C19 witness: actions offered");
+        wit = !l1.is_empty(); // C19 witness: actions offered
         std::mem::forget(l1);
         std::mem::forget(l2);
     } else if PART == 1 {
@@ -41,23 +42,29 @@ pub fn c19_play<const STEP: usize, const KIND: u8, const PART: u8>(inp: &Inp) ->
         let _ = pb.trapped_piece_bits();
         let sq = arimaa_engine_step::Square::from_index(s.probe);
         let _ = pb.piece_type_at_square(&sq);
-        vcover_if!(PART == 1, t.is_some(), "C19 witness: a finished state");
+        wit = t.is_some(); // C19 witness: a finished state
     } else if PART == 2 {
-        vassume!(model::legal_step(&s.board, s.gold, s.step, s.pending, s.a_sq, s.a_dir));
-        let a = action_of(s.a_sq, s.a_dir);
+        // an action the ENGINE offers (entry k of the rule-only list, k symbolic; under the focus
+        // projection these are the entries from the symbolic focus square plus all pull entries)
+        let l = gs.valid_actions_no_rep();
+        let k = (s.aux % 9) as usize;
+        vassume!(k < l.len());
+        let a = l[k];
         let pv = gs.trapped_animal_for_action(&a);
         let ns = gs.take_action(&a);
         let _ = ns.transposition_hash();
-        vcover_if!(PART == 2, pv.is_some(), "C19 witness: an offered step that captures");
+        wit = pv.is_some(); // C19 witness: an offered step that captures
         std::mem::forget(ns);
+        std::mem::forget(l);
     } else {
         vassume!(model::pass_legal(s.step, s.pending));
         let ns = gs.take_action(&Action::Pass);
         let _ = gs.trapped_animal_for_action(&Action::Pass);
         let _ = ns.transposition_hash();
-        vcover_if!(PART == 3, !s.gold, "C19 witness: silver passes");
+        wit = !s.gold; // C19 witness: silver passes
         std::mem::forget(ns);
     }
+    vcover!(wit, "C19 witness: the part-specific interesting case is reachable (see source)");
     std::mem::forget(gs);
     Verdict::Held
 }
@@ -70,6 +77,7 @@ pub fn c19_setup<const PART: u8>(inp: &Inp) -> Verdict {
     let k = s.aux % 32;
     vassume!(model::setup_state_ok(&s.board, k));
     let gs = build_setup_state(&s.board, k, s.hash);
+    let mut wit = false;
     if PART == 0 {
         let l1 = gs.valid_actions();
         let l2 = gs.valid_actions_no_rep();
@@ -79,7 +87,7 @@ pub fn c19_setup<const PART: u8>(inp: &Inp) -> Verdict {
         let th = gs.transposition_hash();
         let pl = gs.is_play_phase();
         let pbit = gs.piece_board().placement_bit();
-        vcover_if!(PART == 0, k == 31, "C19 witness: last setup state");
+        wit = k == 31; // C19 witness: last setup state
         std::mem::forget(l1);
         std::mem::forget(l2);
     } else {
@@ -93,9 +101,10 @@ pub fn c19_setup<const PART: u8>(inp: &Inp) -> Verdict {
         let ns = gs.take_action(&a);
         let _ = ns.transposition_hash();
         let _ = ns.is_terminal();
-        vcover_if!(PART == 1, k == 31, "C19 witness: the placement that starts play");
+        wit = k == 31; // C19 witness: the placement that starts play
         std::mem::forget(ns);
     }
+    vcover!(wit, "C19 witness: the part-specific interesting case is reachable (see source)");
     std::mem::forget(gs);
     Verdict::Held
 }
